@@ -152,7 +152,7 @@ fn hc4_find_matches_step<const WB: usize>(dict: u32, mlm: u32, nice_len: u32, de
 }
 
 // C01-H: every (distance, length) HC4 reports is a true match inside the dictionary and the window.
-//@ {"name":"c01h_hc4_find_matches_sound","tier":"thorough","props":["C01","C15","C13"],"obligation":"C01-H","stubbing":true,"stubs":["Hash234 table accessors -> environment stub (harness/api_hash234.rs)"],"timeout":7200,"mem_gb":9,"feature_variants":["encoder","encoder,optimization"],"functions":["lz::hc4::HC4::find_matches","lz::hc4::HC4::move_pos","lz::hc4::HC4::new","lz::hash234::Hash234::new","lz::hash234::Hash234::calc_hashes","lz::hash234::Hash234::update_tables","lz::lz_encoder::LZEncoderData::move_pos","lz::extend_match","lz::extend_match_safe"],"bounds":"dictionary 12 (cyclic_size 13), 40-byte window with arbitrary content, match_len_max 8, nice_len 8, depth limit 2; any read_pos/write_pos/finishing/pending, any lz_pos in [cyclic_size, 2^31-3], any cyclic_pos; one arbitrary admissible entry per hash table, two per chain (all the call can read); unwind 12","assumes":["table invariant T1-T4 (harness header)","no position renormalisation in this step (lz_pos + 1 < 0x7FFFFFFF)"]}
+//@ {"replay":"model","name":"c01h_hc4_find_matches_sound","tier":"thorough","props":["C01","C15","C13"],"obligation":"C01-H","stubbing":true,"stubs":["Hash234 table accessors -> environment stub (harness/api_hash234.rs)"],"timeout":7200,"mem_gb":9,"feature_variants":["encoder","encoder,optimization"],"functions":["lz::hc4::HC4::find_matches","lz::hc4::HC4::move_pos","lz::hc4::HC4::new","lz::hash234::Hash234::new","lz::hash234::Hash234::calc_hashes","lz::hash234::Hash234::update_tables","lz::lz_encoder::LZEncoderData::move_pos","lz::extend_match","lz::extend_match_safe"],"bounds":"dictionary 12 (cyclic_size 13), 40-byte window with arbitrary content, match_len_max 8, nice_len 8, depth limit 2; any read_pos/write_pos/finishing/pending, any lz_pos in [cyclic_size, 2^31-3], any cyclic_pos; one arbitrary admissible entry per hash table, two per chain (all the call can read); unwind 12","assumes":["table invariant T1-T4 (harness header)","no position renormalisation in this step (lz_pos + 1 < 0x7FFFFFFF)"]}
 #[kani::proof]
 #[kani::unwind(12)]
 #[kani::stub(crate::lz::hash234::Hash234::get_hash2_pos, crate::lz::hash234::verif_h234::get2)]
@@ -164,7 +164,7 @@ fn c01h_hc4_find_matches_sound() {
 }
 
 // quick variant: smaller window / dictionary / lengths (same obligations, about 1/10 of the SAT time)
-//@ {"name":"c01h_hc4_find_matches_lite","props":["C01","C15","C13"],"obligation":"C01-H","stubbing":true,"stubs":["Hash234 table accessors -> environment stub (harness/api_hash234.rs)"],"timeout":1800,"mem_gb":9,"feature_variants":["encoder,optimization"],"functions":["lz::hc4::HC4::find_matches","lz::hc4::HC4::move_pos","lz::hc4::HC4::new","lz::hash234::Hash234::new","lz::hash234::Hash234::calc_hashes","lz::lz_encoder::LZEncoderData::move_pos","lz::extend_match","lz::extend_match_safe"],"bounds":"dictionary 6 (cyclic_size 7), 20-byte window with arbitrary content, match_len_max 5, nice_len 5, depth limit 1; any read_pos/write_pos/finishing/pending, any lz_pos in [cyclic_size, 2^31-3], any cyclic_pos; one arbitrary admissible entry per hash table, one chain slot; unwind 12","assumes":["table invariant T1-T4 (harness header)","no position renormalisation in this step (lz_pos + 1 < 0x7FFFFFFF)"]}
+//@ {"replay":"model","name":"c01h_hc4_find_matches_lite","props":["C01","C15","C13"],"obligation":"C01-H","stubbing":true,"stubs":["Hash234 table accessors -> environment stub (harness/api_hash234.rs)"],"timeout":1800,"mem_gb":9,"feature_variants":["encoder,optimization"],"functions":["lz::hc4::HC4::find_matches","lz::hc4::HC4::move_pos","lz::hc4::HC4::new","lz::hash234::Hash234::new","lz::hash234::Hash234::calc_hashes","lz::lz_encoder::LZEncoderData::move_pos","lz::extend_match","lz::extend_match_safe"],"bounds":"dictionary 6 (cyclic_size 7), 20-byte window with arbitrary content, match_len_max 5, nice_len 5, depth limit 1; any read_pos/write_pos/finishing/pending, any lz_pos in [cyclic_size, 2^31-3], any cyclic_pos; one arbitrary admissible entry per hash table, one chain slot; unwind 12","assumes":["table invariant T1-T4 (harness header)","no position renormalisation in this step (lz_pos + 1 < 0x7FFFFFFF)"]}
 #[kani::proof]
 #[kani::unwind(12)]
 #[kani::stub(crate::lz::hash234::Hash234::get_hash2_pos, crate::lz::hash234::verif_h234::get2)]
@@ -176,7 +176,7 @@ fn c01h_hc4_find_matches_lite() {
 }
 
 // same with nice_len 4 < match_len_max 8: the early-return-on-nice-length paths
-//@ {"name":"c01h_hc4_find_matches_nice4","props":["C01","C15"],"obligation":"C01-H","stubbing":true,"stubs":["Hash234 table accessors -> environment stub (harness/api_hash234.rs)"],"tier":"thorough","timeout":7200,"mem_gb":9,"functions":["lz::hc4::HC4::find_matches"],"bounds":"as c01h_hc4_find_matches_sound with nice_len 4, depth limit 3","assumes":["table invariant T1-T4","no renormalisation in this step"]}
+//@ {"replay":"model","name":"c01h_hc4_find_matches_nice4","props":["C01","C15"],"obligation":"C01-H","stubbing":true,"stubs":["Hash234 table accessors -> environment stub (harness/api_hash234.rs)"],"tier":"thorough","timeout":7200,"mem_gb":9,"functions":["lz::hc4::HC4::find_matches"],"bounds":"as c01h_hc4_find_matches_sound with nice_len 4, depth limit 3","assumes":["table invariant T1-T4","no renormalisation in this step"]}
 #[kani::proof]
 #[kani::unwind(12)]
 #[kani::stub(crate::lz::hash234::Hash234::get_hash2_pos, crate::lz::hash234::verif_h234::get2)]
@@ -189,7 +189,7 @@ fn c01h_hc4_find_matches_nice4() {
 
 // C01-H: HC4::skip(n) advances exactly n positions, keeps the window, and leaves tables that satisfy the invariant for the
 // last hashed position.
-//@ {"name":"c01h_hc4_skip","props":["C01","C13"],"obligation":"C01-H","stubbing":true,"stubs":["Hash234 table accessors -> environment stub (harness/api_hash234.rs)"],"timeout":1500,"mem_gb":9,"functions":["lz::hc4::HC4::skip","lz::hc4::HC4::move_pos"],"bounds":"skip length 0..=3 (symbolic), same state space as c01h_hc4_find_matches_sound; unwind 12","assumes":["table invariant T1-T4","no renormalisation in these steps"]}
+//@ {"replay":"model","name":"c01h_hc4_skip","props":["C01","C13"],"obligation":"C01-H","stubbing":true,"stubs":["Hash234 table accessors -> environment stub (harness/api_hash234.rs)"],"timeout":1500,"mem_gb":9,"functions":["lz::hc4::HC4::skip","lz::hc4::HC4::move_pos"],"bounds":"skip length 0..=3 (symbolic), same state space as c01h_hc4_find_matches_sound; unwind 12","assumes":["table invariant T1-T4","no renormalisation in these steps"]}
 #[kani::proof]
 #[kani::unwind(12)]
 #[kani::stub(crate::lz::hash234::Hash234::get_hash2_pos, crate::lz::hash234::verif_h234::get2)]
@@ -251,7 +251,7 @@ fn verif_record_normalize(positions: &mut [i32], norm_offset: i32) {
     }
 }
 
-//@ {"name":"c01h_hc4_renormalise_step","props":["C01","C14"],"obligation":"C01-H","timeout":900,"mem_gb":9,"stubbing":true,"functions":["lz::hc4::HC4::move_pos","lz::hash234::Hash234::normalize"],"bounds":"lz_pos = 0x7FFFFFFE before the step; 40-byte window","assumes":["LZEncoder::normalize replaced by a recorder (its element formula is decided by c14c_normalize_*)"],"stubs":["LZEncoder::normalize -> recorder"]}
+//@ {"replay":"model","name":"c01h_hc4_renormalise_step","props":["C01","C14"],"obligation":"C01-H","timeout":900,"mem_gb":9,"stubbing":true,"functions":["lz::hc4::HC4::move_pos","lz::hash234::Hash234::normalize"],"bounds":"lz_pos = 0x7FFFFFFE before the step; 40-byte window","assumes":["LZEncoder::normalize replaced by a recorder (its element formula is decided by c14c_normalize_*)"],"stubs":["LZEncoder::normalize -> recorder"]}
 #[kani::proof]
 #[kani::unwind(12)]
 #[kani::stub(crate::lz::lz_encoder::LZEncoder::normalize, verif_record_normalize)]
